@@ -195,8 +195,20 @@ func isPure(info *types.Info, expr ast.Expr) bool {
 		return isPure(info, expr.X)
 	case *ast.CompositeLit:
 		return isPureList(info, expr.Elts)
+	case *ast.KeyValueExpr:
+		return isPure(info, expr.Key) &&
+			isPure(info, expr.Value)
+	case *ast.SliceExpr:
+		return isPure(info, expr.X) &&
+			(expr.Low == nil || isPure(info, expr.Low)) &&
+			(expr.High == nil || isPure(info, expr.High)) &&
+			(expr.Max == nil || isPure(info, expr.Max))
+	case *ast.TypeAssertExpr:
+		return isPure(info, expr.X)
 	case *ast.CallExpr:
 		return isTypeExpr(info, expr.Fun) && isPureList(info, expr.Args)
+	case *ast.FuncType, *ast.StructType, *ast.InterfaceType, *ast.ArrayType, *ast.MapType, *ast.ChanType:
+		return true // A type expression (like in f[[]int]) evaluates nothing
 
 	default:
 		return false
